@@ -7,8 +7,10 @@ import (
 	"fmt"
 	"math"
 	"math/rand"
+	"os"
 	"sort"
 	"strings"
+	"sync"
 	"sync/atomic"
 	"testing"
 	"time"
@@ -17,6 +19,7 @@ import (
 
 	"github.com/prometheus/prometheus/model/labels"
 	"github.com/prometheus/prometheus/storage"
+	"github.com/prometheus/prometheus/tsdb"
 	"github.com/prometheus/prometheus/tsdb/chunkenc"
 
 	"github.com/thanos-io/thanos/pkg/component"
@@ -164,17 +167,22 @@ func (s *vfc04Store) Series(req *storepb.SeriesRequest, srv storepb.Store_Series
 	return flush()
 }
 
-func vfc04Proxy(stores []*vfc04Store, strategy store.RetrievalStrategy) *store.ProxyStore {
-	cls := make([]store.Client, len(stores))
-	for i, s := range stores {
-		cls[i] = &storetestutil.TestClient{
-			Name:        s.name,
-			StoreClient: storepb.ServerAsClient(s, uatomic.Bool{}),
-			ExtLset:     []labels.Labels{s.ext},
-			MinTime:     math.MinInt64, MaxTime: math.MaxInt64,
-			WithoutReplicaLabelsEnabled: s.supportsWRL,
-		}
+func vfc04Client(name string, srv storepb.StoreServer, ext labels.Labels, supportsWRL bool) store.Client {
+	return &storetestutil.TestClient{
+		Name:        name,
+		StoreClient: storepb.ServerAsClient(srv, uatomic.Bool{}),
+		ExtLset:     []labels.Labels{ext},
+		MinTime:     math.MinInt64, MaxTime: math.MaxInt64,
+		WithoutReplicaLabelsEnabled: supportsWRL,
 	}
+}
+
+func vfc04Proxy(stores []*vfc04Store, strategy store.RetrievalStrategy, extra ...store.Client) *store.ProxyStore {
+	cls := make([]store.Client, 0, len(stores)+len(extra))
+	for _, s := range stores {
+		cls = append(cls, vfc04Client(s.name, s, s.ext, s.supportsWRL))
+	}
+	cls = append(cls, extra...)
 	return store.NewProxyStore(nil, nil, func() []store.Client { return cls }, component.Query, labels.EmptyLabels(), 0, strategy)
 }
 
@@ -238,7 +246,7 @@ func vfc04Select(q storage.Queryable, mint, maxt int64, f string, rng *rand.Rand
 	for _, s := range series {
 		o := vfc04OutSeries{Labels: s.Labels().String(), lset: s.Labels()}
 		it := s.Iterator(nil)
-		for it.Next() != chunkenc.ValNone && len(o.Next) < 100000 {
+		for it.Next() != chunkenc.ValNone && len(o.Next) < 5000000 {
 			t, v := it.At()
 			o.Next = append(o.Next, vfc04Pt{t, v})
 		}
@@ -248,7 +256,7 @@ func vfc04Select(q storage.Queryable, mint, maxt int64, f string, rng *rand.Rand
 		// engine-style reader: seek forward by random steps, a few Next in between
 		it = s.Iterator(nil)
 		cur := int64(math.MinInt64)
-		for len(o.Mixed) < 100000 {
+		for len(o.Mixed) < 5000000 {
 			var vt chunkenc.ValueType
 			if rng.Intn(2) == 0 {
 				var target int64
@@ -312,6 +320,21 @@ type vfc04Scenario struct {
 	stores    []*vfc04Store
 	desc      map[string]any
 	replicaLs [][]labels.Label // replica label values per replica
+
+	// round 2: replicas served by real TSDBStores (store.NewTSDBStore over a real TSDB head)
+	extraClients  []store.Client
+	closers       []func()
+	nontrivial    bool // TSDB scenarios: set by the generator instead of the >= 2 scripted chunks rule
+	fullRangeOnly bool
+	frames        *vfc04FrameCounter
+	algo          string // fixed dedup algorithm ("" = drawn per scenario)
+}
+
+func (sc *vfc04Scenario) vfc04Close() {
+	for _, f := range sc.closers {
+		f()
+	}
+	sc.closers = nil
 }
 
 // vfc04Cuts cuts n samples into index ranges [lo,hi] (inclusive) according to a cut class.
@@ -613,6 +636,16 @@ func (sc *vfc04Scenario) vfc04FullLabels(l, r int) labels.Labels {
 }
 
 func vfc04InRange(pts []vfc04Pt, mint, maxt int64) []vfc04Pt {
+	all := true
+	for i := range pts {
+		if pts[i].T < mint || pts[i].T > maxt {
+			all = false
+			break
+		}
+	}
+	if all {
+		return pts // nothing to filter: no copy (series of >100k samples are checked too)
+	}
 	var out []vfc04Pt
 	for _, p := range pts {
 		if p.T >= mint && p.T <= maxt {
@@ -630,6 +663,21 @@ func vfc04SamePts(a, b []vfc04Pt) bool {
 		if a[i].T != b[i].T || math.Float64bits(a[i].V) != math.Float64bits(b[i].V) {
 			return false
 		}
+	}
+	return true
+}
+
+// vfc04IsSubsequence: every sample of got is a sample of want, in the same order (two pointers, no allocation).
+func vfc04IsSubsequence(got, want []vfc04Pt) bool {
+	j := 0
+	for _, g := range got {
+		for j < len(want) && want[j].T < g.T {
+			j++
+		}
+		if j == len(want) || want[j].T != g.T || math.Float64bits(want[j].V) != math.Float64bits(g.V) {
+			return false
+		}
+		j++
 	}
 	return true
 }
@@ -688,14 +736,20 @@ func vfc04PtsBrief(p []vfc04Pt) any {
 func TestVF_C04(t *testing.T) {
 	r := vfkit.Start(t, "C04")
 	defer r.Finish()
-	r.Rule("case = scenario of 1..6 logical series x 1..3 replicas (1..2 replica label names sorting before/between/after the other labels; replica labels as store external labels, stored labels or mixed; identical or independent replica samples), " +
-		"each replica's samples cut into XOR chunks (disjoint / several complete copies cut independently / sliding partially overlapping chunks / nested chunks), copies and chunks placed on 1..6 fake StoreServers (with and without without-replica-labels support, series split over frames, batched frames) behind ServerAsClient + real ProxyStore (eager/lazy) + real querier (penalty/chain, response batch sizes); " +
-		"queried with dedup on and off, full range and a sub-range, one select function, every series read Next-only and Seek/Next mixed; " +
+	r.Rule("three phases, one oracle. (1) scripted StoreServers: scenario of 1..6 logical series x 1..3 replicas (1..2 replica label names sorting before/between/after the other labels; replica labels as store external labels, stored labels or mixed; identical or independent replica samples), " +
+		"each replica's samples cut into XOR chunks (disjoint / several complete copies cut independently / sliding partially overlapping chunks / nested chunks), copies and chunks placed on 1..6 fake StoreServers (with and without without-replica-labels support, series split over frames, batched frames). " +
+		"(2) real TSDBStores: 2..6 prefix-related stored label sets (a set plus one more label from b/instance/pod/zone), 1..3 replicas appended to real TSDB heads served by store.NewTSDBStore (one per replica, or shared when the replica labels are stored; a quarter of the backends scripted instead), external labels = replica label(s) per placement + 0..2 ordinary external labels (a_ext/cluster/region/zzz_ext: before/between/after the stored names), 1..300 samples. " +
+		"(3) directed: the same generator with one series just large enough (incompressible values; dense 120-sample chunks or one sample per chunk) to need 2 resp. 3 response frames of the TSDBStore's 1 MiB frame limit (frame count observed at the StoreServer boundary, otherwise inconclusive). " +
+		"All behind ServerAsClient + real ProxyStore (eager/lazy) + real querier (penalty/chain, response batch sizes); queried with dedup on and off, full range and a sub-range, one select function, every series read Next-only and Seek/Next mixed; " +
 		"oracle: dedup on -> exactly one series per logical label set without replica labels, and (identical replicas, penalty) exactly the logical samples; dedup off -> exactly one series per (logical series, replica) with that replica's samples; " +
-		"distinct = hash of scenario layout+query; non-trivial = >= 2 chunks reached the querier for some series and at least one series was returned")
-	n := r.N(300, 6000)
-	r.Require(int64(n)*3, n)
+		"distinct = hash of scenario layout+query; non-trivial = >= 2 chunks reached the querier for some series (TSDB phase: >= 2 replicas or a series over 120 samples) and at least one series was returned")
+	n := r.N(220, 4000)     // scripted StoreServers: chunk-cut classes
+	nTSDB := r.N(200, 4000) // real TSDBStores (some replicas possibly scripted)
+	nBig := r.N(1, 6)       // directed: one series larger than the 1 MiB TSDBStore frame limit (2 and 3 frames alternate)
+	r.Require(int64(n+nTSDB)*3, n+nTSDB*3/4)
+	r.Extra("phases", map[string]int{"scripted": n, "real_tsdb_store": nTSDB, "big_series_over_frame_limit": nBig})
 	r.Assume("every store streams label-sorted series (StoreAPI contract); samples of one replica have strictly increasing timestamps; with a counter function (rate/increase) values are non-decreasing, so counter-reset adjustment is the identity")
+	phaseStart := time.Now()
 	for c := 0; c < n; c++ {
 		if !r.Want(c) {
 			continue
@@ -703,6 +757,45 @@ func TestVF_C04(t *testing.T) {
 		rng := r.Rand(c)
 		sc := vfc04GenScenario(rng)
 		r.Guard(c, "query-read-path", sc.desc, func() { vfc04Run(r, c, sc, rng) })
+		if r.Counter("harness_timeouts") > 3 {
+			r.Inconclusive("Select timed out repeatedly (10 min budget each): machine too loaded")
+			return
+		}
+	}
+	// Phase 2: the same oracle over replicas served by real TSDBStores; phase 3: series beyond the frame limit.
+	timing := map[string]float64{"scripted_s": time.Since(phaseStart).Seconds()}
+	defer func() { r.Extra("phase_run_time_s(evidence only)", timing) }()
+	for c := n; c < n+nTSDB+nBig; c++ {
+		if !r.Want(c) {
+			continue
+		}
+		caseStart := time.Now()
+		if c == n+nTSDB {
+			timing["real_tsdb_store_s"] = time.Since(phaseStart).Seconds() - timing["scripted_s"]
+		}
+		rng := r.Rand(c)
+		bigFrames, bigVariant := 0, 0
+		if k := c - n - nTSDB; k >= 0 {
+			// k=0: dense, 2 frames (the only one in quick); then dense/3, sparse/2, sparse/3, dense/2 with both replicas real, ...
+			bigFrames, bigVariant = 2+k%2, k/2+1
+		}
+		sc, err := vfc04GenTSDBScenario(rng, t.TempDir(), bigFrames, bigVariant)
+		if err != nil {
+			t.Fatalf("harness: cannot set up TSDB scenario: %v", err)
+		}
+		genDone := time.Now()
+		r.Guard(c, "query-read-path", sc.desc, func() { vfc04Run(r, c, sc, rng) })
+		runDone := time.Now()
+		sc.vfc04Close()
+		if bigFrames > 0 {
+			timing["big_series_setup_s"] += genDone.Sub(caseStart).Seconds()
+			timing["big_series_query_and_check_s"] += runDone.Sub(genDone).Seconds()
+			timing["big_series_s"] += time.Since(caseStart).Seconds()
+			r.Count("big_series_scenarios", 1)
+			if sc.frames.max() < bigFrames {
+				r.Inconclusive(fmt.Sprintf("directed big-series scenario: the TSDBStore sent the series in %d frame(s), %d wanted", sc.frames.max(), bigFrames))
+			}
+		}
 		if r.Counter("harness_timeouts") > 3 {
 			r.Inconclusive("Select timed out repeatedly (10 min budget each): machine too loaded")
 			return
@@ -719,7 +812,10 @@ func vfc04Run(r *vfkit.Run, c int, sc *vfc04Scenario, rng *rand.Rand) {
 		funcs = []string{"rate", "increase", "irate", "", "sum_over_time"}
 	}
 	f := vfkit.Pick(rng, funcs)
-	proxy := vfc04Proxy(sc.stores, strategy)
+	if sc.algo != "" {
+		algo = sc.algo
+	}
+	proxy := vfc04Proxy(sc.stores, strategy, sc.extraClients...)
 	creator := NewQueryableCreator(nil, nil, proxy, 4, 10*time.Minute, algo, batch)
 	// time ranges: everything, and a window inside the data
 	lo, hi := int64(math.MaxInt64), int64(math.MinInt64)
@@ -736,13 +832,13 @@ func vfc04Run(r *vfkit.Run, c int, sc *vfc04Scenario, rng *rand.Rand) {
 		}
 	}
 	ranges := [][2]int64{{lo - 1000, hi + 1000}}
-	if hi > lo {
+	if hi > lo && !sc.fullRangeOnly {
 		a := lo + rng.Int63n(hi-lo+1)
 		b := a + rng.Int63n(hi-a+1)
 		ranges = append(ranges, [2]int64{a, b})
 	}
 	sc.desc["query"] = map[string]any{"func": f, "algorithm": algo, "retrieval": string(strategy), "response_batch_size": batch}
-	multiChunk := false
+	multiChunk := sc.nontrivial
 	for _, s := range sc.stores {
 		for _, ss := range s.series {
 			if len(ss.chunks) >= 2 {
@@ -791,6 +887,13 @@ func vfc04Run(r *vfkit.Run, c int, sc *vfc04Scenario, rng *rand.Rand) {
 		}
 	}
 	r.Count("cut_class/"+sc.cutClass, 1)
+	if sc.frames != nil && sc.fullRangeOnly {
+		// (only meaningful in the directed scenarios: consecutive equal label sets are counted as frames of one series)
+		if mf := sc.frames.max(); mf >= 2 {
+			r.Count(fmt.Sprintf("big_series_sent_in_%d_frames", mf), 1)
+		}
+		sc.desc["max_frames_per_series_sent_by_a_tsdb_store"] = sc.frames.max()
+	}
 	r.Sample(sc.desc)
 }
 
@@ -882,7 +985,9 @@ func vfc04Check(r *vfkit.Run, c int, sc *vfc04Scenario, dedupOn bool, algo strin
 			if ri == 1 {
 				// the mixed reader legitimately skips samples; what it visits must be expected samples in order,
 				// and every Seek must land on the first expected sample >= max(target, position before).
-				if k, d := vfc04Diff(got, append([]vfc04Pt(nil), wantPts...)); k != "" && k != "samples-missing" {
+				if vfc04IsSubsequence(got, wantPts) {
+					// fine: visited samples are expected samples, in order
+				} else if k, d := vfc04Diff(got, wantPts); k != "" && k != "samples-missing" {
 					r.Violation(c, fmt.Sprintf("%s:%s:%s:cut=%s", mode, reader, k, cut), fmt.Sprintf("%s read with %s: %s", o.Labels, reader, d),
 						wit(map[string]any{"series": o.Labels, "got": vfc04PtsBrief(got), "want": vfc04PtsBrief(wantPts)}))
 					return false
@@ -954,4 +1059,331 @@ func vfc04CheckSeeks(seeks []vfc04SeekObs, ref []vfc04Pt) (bool, string) {
 		}
 	}
 	return false, ""
+}
+
+// ---------------------------------------------------------------------------------------------
+// Round 2: replicas served by real TSDBStores.
+// ---------------------------------------------------------------------------------------------
+
+const vfc04CutTSDB = "tsdb-head-chunks"
+
+// vfc04FrameCounter observes, at the StoreServer boundary, into how many frames a TSDBStore split one series.
+type vfc04FrameCounter struct {
+	mu sync.Mutex
+	mx int
+}
+
+func (f *vfc04FrameCounter) max() int { f.mu.Lock(); defer f.mu.Unlock(); return f.mx }
+
+type vfc04CountingStore struct {
+	storepb.StoreServer
+	fc *vfc04FrameCounter
+}
+
+type vfc04CountingSrv struct {
+	storepb.Store_SeriesServer
+	last string
+	n    int
+	fc   *vfc04FrameCounter
+}
+
+func (c *vfc04CountingSrv) see(s *storepb.Series) {
+	k := labelpb.ZLabelsToPromLabels(s.Labels).String()
+	if k != c.last {
+		c.last, c.n = k, 0
+	}
+	c.n++
+	c.fc.mu.Lock()
+	if c.n > c.fc.mx {
+		c.fc.mx = c.n
+	}
+	c.fc.mu.Unlock()
+}
+
+func (c *vfc04CountingSrv) Send(r *storepb.SeriesResponse) error {
+	if s := r.GetSeries(); s != nil {
+		c.see(s)
+	}
+	if b := r.GetBatch(); b != nil {
+		for _, s := range b.Series {
+			c.see(s)
+		}
+	}
+	return c.Store_SeriesServer.Send(r)
+}
+
+func (c *vfc04CountingStore) Series(req *storepb.SeriesRequest, srv storepb.Store_SeriesServer) error {
+	return c.StoreServer.Series(req, &vfc04CountingSrv{Store_SeriesServer: srv, fc: c.fc})
+}
+
+// vfc04GenTSDBScenario builds a scenario whose replicas live in real TSDB heads behind store.NewTSDBStore
+// (some replicas possibly on a scripted server). Stored label sets are prefix-related, the stores carry the
+// replica label(s) plus 0..2 ordinary external labels whose names sort before / between / after the stored
+// label names. With bigFrames > 0 the first logical series is made just large enough for its chunks to need
+// that many 1 MiB response frames.
+func vfc04GenTSDBScenario(rng *rand.Rand, dir string, bigFrames, bigVariant int) (*vfc04Scenario, error) {
+	sc := &vfc04Scenario{desc: map[string]any{}, cutClass: vfc04CutTSDB, frames: &vfc04FrameCounter{}}
+	nRL := 1 + rng.Intn(2)
+	sc.replicaLabels = vfkit.Perm(rng, []string{"replica", "a_rep", "zz_rep"})[:nRL]
+	nRep := 1 + rng.Intn(3)
+	if bigFrames > 0 {
+		nRep = 2
+	}
+	for r := 0; r < nRep; r++ {
+		var ls []labels.Label
+		for i, name := range sc.replicaLabels {
+			v := fmt.Sprintf("r%d", r)
+			if i == 1 {
+				v = fmt.Sprintf("g%d", r/2)
+			}
+			ls = append(ls, labels.Label{Name: name, Value: v})
+		}
+		sc.replicaLs = append(sc.replicaLs, ls)
+	}
+	// ordinary external labels, the same on every store (they are part of every logical series)
+	ordExt := labels.NewBuilder(labels.EmptyLabels())
+	var ordNames []string
+	for _, name := range vfkit.Perm(rng, []string{"a_ext", "cluster", "region", "zzz_ext"})[:rng.Intn(3)] {
+		ordExt.Set(name, vfkit.Pick(rng, []string{"eu", "c1"}))
+		ordNames = append(ordNames, name)
+	}
+	// stored label sets: prefix-related (a set plus one more label), names around the external label names
+	optional := []string{"b", "instance", "pod", "zone"}
+	var stored []labels.Labels
+	seen := map[string]bool{}
+	add := func(l labels.Labels) {
+		if !seen[l.String()] {
+			seen[l.String()] = true
+			stored = append(stored, l)
+		}
+	}
+	add(labels.FromStrings("__name__", vfkit.Pick(rng, []string{"m", "m_total"}), "job", "vf"))
+	nL := 2 + rng.Intn(5)
+	if bigFrames > 0 {
+		nL = 2 + rng.Intn(2)
+	}
+	for tries := 0; len(stored) < nL && tries < 50; tries++ {
+		var b *labels.Builder
+		if rng.Intn(10) < 7 {
+			b = labels.NewBuilder(stored[rng.Intn(len(stored))]) // extend an existing set: prefix relation
+		} else {
+			b = labels.NewBuilder(labels.FromStrings("__name__", vfkit.Pick(rng, []string{"m", "m_total", "up"}), "job", "vf"))
+		}
+		b.Set(vfkit.Pick(rng, optional), vfkit.Pick(rng, []string{"x", "y"}))
+		add(b.Labels())
+	}
+	stored = vfkit.Perm(rng, stored)
+	for _, l := range stored {
+		b := labels.NewBuilder(l)
+		ordExt.Labels().Range(func(e labels.Label) { b.Set(e.Name, e.Value) })
+		sc.logical = append(sc.logical, b.Labels())
+	}
+	sc.identical = rng.Intn(10) < 7 || bigFrames > 0
+	sc.monotone = rng.Intn(3) == 0 && bigFrames == 0
+	if bigFrames > 0 {
+		sc.algo = dedup.AlgorithmPenalty
+		sc.fullRangeOnly = true
+	}
+	interval := vfkit.Pick(rng, []int64{1000, 15000, 30000})
+	base := int64(1_600_000_000_000) + rng.Int63n(1_000_000)
+	gen := func(n int, off int64) []vfc04Pt {
+		ts := vfkit.ScrapeTimes(rng, vfkit.ScrapeOpts{Start: base + off, Interval: interval, Jitter: interval / 10, N: n, GapProb: vfkit.Pick(rng, []float64{0, 0, 0.05}), GapMax: 5})
+		out := make([]vfc04Pt, len(ts))
+		cur := float64(rng.Intn(100))
+		for i, t := range ts {
+			if sc.monotone {
+				cur += float64(rng.Intn(10))
+				out[i] = vfc04Pt{t, cur}
+			} else {
+				out[i] = vfc04Pt{t, float64(rng.Intn(2001)-1000) / 4}
+			}
+		}
+		return out
+	}
+	// genBig: incompressible values; as many samples as needed for the XOR chunks (120 samples each, as the
+	// TSDB head cuts them) to exceed (frames-1) MiB by a margin.
+	// dense: 1 s scrapes, the head cuts 120-sample chunks (~1.3 KB each, ~100k samples per MiB);
+	// sparse: one sample every 2h+ so that the head cuts one chunk per sample (~45 B per chunk message,
+	// ~25k samples per MiB) - the cheap way to exceed the frame limit, used in the quick tier.
+	bigSparse := bigFrames > 0 && (bigVariant%2 == 0)
+	genBig := func(frames int) []vfc04Pt {
+		target := (frames-1)*store.RemoteReadFrameLimit + store.RemoteReadFrameLimit/5
+		var out []vfc04Pt
+		t := base
+		size := 0
+		per := 120
+		if bigSparse {
+			per = 1
+		}
+		for size < target {
+			c := chunkenc.NewXORChunk()
+			app, _ := c.Appender()
+			for i := 0; i < per; i++ {
+				if bigSparse {
+					t += 2*3600*1000 + rng.Int63n(3600*1000)
+				} else {
+					t += 900 + rng.Int63n(201)
+				}
+				v := rng.NormFloat64() * 1e6
+				app.Append(t, v)
+				out = append(out, vfc04Pt{t, v})
+			}
+			// what TSDBStore charges against the frame: the proto size of the AggrChunk message
+			size += (&storepb.AggrChunk{MinTime: t, MaxTime: t, Raw: &storepb.Chunk{Type: storepb.Chunk_XOR, Data: c.Bytes(), Hash: 1 << 60}}).Size()
+		}
+		return out
+	}
+	sc.samples = make([][][]vfc04Pt, len(sc.logical))
+	maxN := 0
+	for l := range sc.logical {
+		sc.samples[l] = make([][]vfc04Pt, nRep)
+		var first []vfc04Pt
+		if bigFrames > 0 && l == 0 {
+			first = genBig(bigFrames)
+		} else {
+			first = gen(1+rng.Intn(300), rng.Int63n(interval))
+		}
+		if len(first) > maxN {
+			maxN = len(first)
+		}
+		for r := 0; r < nRep; r++ {
+			if sc.identical || r == 0 {
+				sc.samples[l][r] = first
+			} else {
+				sc.samples[l][r] = gen(1+rng.Intn(300), rng.Int63n(interval))
+			}
+		}
+	}
+	placement := vfkit.Pick(rng, []string{"external", "external", "external", "stored", "mixed"})
+	if nRL == 1 && placement == "mixed" {
+		placement = "external"
+	}
+	extOf := func(r int) labels.Labels {
+		b := labels.NewBuilder(ordExt.Labels())
+		switch placement {
+		case "external":
+			for _, l := range sc.replicaLs[r] {
+				b.Set(l.Name, l.Value)
+			}
+		case "mixed":
+			b.Set(sc.replicaLs[r][0].Name, sc.replicaLs[r][0].Value)
+		}
+		return b.Labels()
+	}
+	storedLset := func(l, r int) labels.Labels {
+		b := labels.NewBuilder(stored[l])
+		switch placement {
+		case "stored":
+			for _, rl := range sc.replicaLs[r] {
+				b.Set(rl.Name, rl.Value)
+			}
+		case "mixed":
+			for _, rl := range sc.replicaLs[r][1:] {
+				b.Set(rl.Name, rl.Value)
+			}
+		}
+		return b.Labels()
+	}
+	// backends: with stored replica labels several replicas may share one TSDB; otherwise one store per replica
+	type backend struct {
+		real     bool
+		ext      labels.Labels
+		replicas []int
+	}
+	var backends []*backend
+	if placement == "stored" {
+		nB := 1 + rng.Intn(nRep)
+		for i := 0; i < nB; i++ {
+			backends = append(backends, &backend{ext: extOf(0)})
+		}
+		for r := 0; r < nRep; r++ {
+			b := backends[r%nB]
+			b.replicas = append(b.replicas, r)
+		}
+	} else {
+		for r := 0; r < nRep; r++ {
+			backends = append(backends, &backend{ext: extOf(r), replicas: []int{r}})
+		}
+	}
+	anyReal := false
+	for _, b := range backends {
+		b.real = rng.Intn(4) != 0
+		anyReal = anyReal || b.real
+	}
+	if !anyReal {
+		backends[rng.Intn(len(backends))].real = true
+	}
+	if bigFrames > 0 {
+		// the replica holding the big series first is always on a real TSDBStore; the second one is real in every
+		// other directed scenario (appending >100k samples under -race is the expensive part)
+		backends[0].real = true
+		backends[len(backends)-1].real = len(backends) == 1 || bigVariant/2%2 == 1 || bigFrames == 3
+	}
+	var bdesc []any
+	for i, b := range backends {
+		if !b.real {
+			st := &vfc04Store{name: fmt.Sprintf("scripted-%d", i), ext: b.ext, supportsWRL: rng.Intn(2) == 0, sendBatches: rng.Intn(4) == 0}
+			for _, r := range b.replicas {
+				for l := range sc.logical {
+					pts := sc.samples[l][r]
+					var chks []storepb.AggrChunk
+					for _, c := range vfc04Cuts(rng, len(pts), vfc04CutDisjoint)[0] {
+						chks = append(chks, vfc04XOR(pts[c[0]:c[1]+1]))
+					}
+					st.series = append(st.series, vfc04StoredSeries{lset: storedLset(l, r), chunks: chks, frames: 1 + rng.Intn(3)})
+				}
+			}
+			sc.stores = append(sc.stores, st)
+			bdesc = append(bdesc, map[string]any{"kind": "scripted", "ext": b.ext.String(), "replicas": b.replicas, "supports_without_replica_labels": st.supportsWRL})
+			continue
+		}
+		d, err := os.MkdirTemp(dir, "tsdb")
+		if err != nil {
+			return nil, err
+		}
+		opts := tsdb.DefaultOptions()
+		opts.RetentionDuration = math.MaxInt64
+		// small in-memory structures and no WAL: under -race every large allocation is walked by the
+		// race runtime; none of this changes what the TSDBStore reads through ChunkQuerier
+		opts.StripeSize = 64
+		opts.HeadChunksWriteBufferSize = 64 * 1024
+		opts.WALSegmentSize = -1
+		db, err := tsdb.Open(d, nil, nil, opts, nil)
+		if err != nil {
+			return nil, err
+		}
+		db.DisableCompactions()
+		sc.closers = append(sc.closers, func() { _ = db.Close(); _ = os.RemoveAll(d) })
+		app := db.Appender(context.Background())
+		for _, r := range b.replicas {
+			// the head accepts nothing older than (first appended sample - chunkRange/2): start with the earliest series
+			order := rng.Perm(len(sc.logical))
+			sort.SliceStable(order, func(i, j int) bool { return sc.samples[order[i]][r][0].T < sc.samples[order[j]][r][0].T })
+			for _, l := range order {
+				ls := storedLset(l, r)
+				for _, p := range sc.samples[l][r] {
+					if _, err := app.Append(0, ls, p.T, p.V); err != nil {
+						return nil, fmt.Errorf("append %s t=%d: %w", ls, p.T, err)
+					}
+				}
+			}
+		}
+		if err := app.Commit(); err != nil {
+			return nil, err
+		}
+		wrl := rng.Intn(4) != 0
+		tsdbStore := store.NewTSDBStore(nil, db, component.Receive, b.ext)
+		sc.extraClients = append(sc.extraClients, vfc04Client(fmt.Sprintf("tsdb-%d", i), &vfc04CountingStore{StoreServer: tsdbStore, fc: sc.frames}, b.ext, wrl))
+		bdesc = append(bdesc, map[string]any{"kind": "real TSDBStore", "ext": b.ext.String(), "replicas": b.replicas, "supports_without_replica_labels": wrl})
+	}
+	sc.nontrivial = nRep >= 2 || maxN > 120
+	var lnames []string
+	for _, l := range stored {
+		lnames = append(lnames, l.String())
+	}
+	sc.desc = map[string]any{"kind": "tsdb", "replica_labels": sc.replicaLabels, "replicas": nRep, "stored_label_sets": lnames, "ordinary_external_labels": ordExt.Labels().String(),
+		"identical_replicas": sc.identical, "monotone_values": sc.monotone, "replica_label_placement": placement, "cut_class": sc.cutClass, "backends": bdesc,
+		"interval_ms": interval, "max_samples_per_series": maxN, "big_series_frames_wanted": bigFrames, "big_series_one_sample_per_chunk": bigSparse}
+	_ = ordNames
+	return sc, nil
 }
